@@ -306,9 +306,9 @@ def doNumber (sheet doc c f : List String) : String :=
       let nodes := root.descendants.filter fun l => Test.accepts sp .text l || Test.accepts sp .anyElem l
       let out := String.join (nodes.map fun l =>
         let k := numberAny sp countT fromT fuel l
-        -- without `from` the walk must compute the Recommendation's count (Props.C13.number_any_nofrom_loop_eq_count;
+        -- without `from` the walk must compute the Recommendation's count (Props.C13.number_any_loop_eq_count;
         -- kept as a run-time cross-check of the two executable definitions)
-        let chk := if fromT.isNone && k != numberAnySpec sp countT l then "SIM-DIFFERS(loop/spec)" else ""
+        let chk := if k != numberAnySpec sp countT fromT l then "SIM-DIFFERS(loop/spec)" else ""
         chk ++ (if k = 0 then "" else toString k) ++ "|")
       "S" ++ hexOfStr out
     | _, _ => "bad"
